@@ -28,6 +28,7 @@ type Engine struct {
 	modCache map[*ssa.Function]map[string]bool
 	typeByKey map[string]types.Type
 	nilcheckAll bool
+	parsedOptions bool // descriptor options read here were normalised by protodesc: a set oneof arm holds a message
 	globals map[*types.Var]*ssa.Global
 	implCache map[string][]*ssa.Function
 	repoDir string
